@@ -658,3 +658,43 @@ def result_unused(cs):
 def is_plain_write(o):
     """An atomic op tuple from atomic_ops() that only writes: store, or a swap whose previous value is discarded."""
     return o[1] == "store" or (o[1] == "swap" and result_unused(o[0]))
+
+
+def opt_alts(crate, s, depth=0):
+    """Alternatives of an Option-valued (or Option-payload) expression with the std combinators expanded:
+    phi, a.or(b), a.or_else(f), a.unwrap_or(d), a.unwrap_or_else(f), a.map_or(d, f) and the Some-payload projection
+    of any of these.  Returns [(sym, note)] where note says how the alternative is selected ('' | 'if-none:<first>')."""
+    s = strip_sym(s)
+    if depth > 6 or not isinstance(s, tuple) or not s:
+        return [(s, "")]
+    if s[0] == "phi":
+        out = []
+        for x in s[1]:
+            out += opt_alts(crate, x, depth + 1)
+        return out
+    if s[0] == "field" and s[2] == "0" and isinstance(s[1], tuple) and strip_sym(s[1])[0] == "downcast" and strip_sym(s[1])[2] == "Some":
+        inner = strip_sym(strip_sym(s[1])[1])
+        if inner[0] == "phi" or (inner[0] == "call" and isinstance(inner[1], str) and any(path_is(inner[1], n) for n in ("Option<T>::or", "Option<T>::or_else"))):
+            return [(("field", ("downcast", a, "Some"), "0"), note) for a, note in opt_alts(crate, inner, depth + 1)]
+        return [(s, "")]
+    if s[0] == "call" and isinstance(s[1], str):
+        def run_closure(f, args=()):
+            f = strip_sym(f)
+            if f[0] == "agg" and f[1] == "closure":
+                cf = crate.by_path.get(f[5])
+                if cf is not None:
+                    return strip_sym(Sym(cf).local(0))
+            if f[:2] == ("const", "fn"):
+                return ("call", f[2], tuple(args), f[2])
+            return ("unknown", "closure")
+
+        a = s[2]
+        if path_is(s[1], "Option<T>::or") and len(a) == 2:
+            return opt_alts(crate, a[0], depth + 1) + [(x, "if-none") for x, _ in opt_alts(crate, a[1], depth + 1)]
+        if path_is(s[1], "Option<T>::or_else") and len(a) == 2:
+            return opt_alts(crate, a[0], depth + 1) + [(x, "if-none") for x, _ in opt_alts(crate, run_closure(a[1]), depth + 1)]
+        if path_is(s[1], "Option<T>::unwrap_or") and len(a) == 2:
+            return [(("field", ("downcast", x, "Some"), "0"), n) for x, n in opt_alts(crate, a[0], depth + 1)] + [(strip_sym(a[1]), "if-none")]
+        if path_is(s[1], "Option<T>::unwrap_or_else") and len(a) == 2:
+            return [(("field", ("downcast", x, "Some"), "0"), n) for x, n in opt_alts(crate, a[0], depth + 1)] + [(run_closure(a[1]), "if-none")]
+    return [(s, "")]
